@@ -20,6 +20,10 @@ const (
 	// oracle 1 (bounded return): > 3 s because the traceback of an error raised in a frame
 	// that accumulated millions of tail calls is built one "(tailcall): ?" line at a time.
 	sigTailcallSlow = "slow-tailcall-traceback"
+	// oracle 2 (no panic): after an xpcall whose message handler itself raised an error,
+	// gopher-lua's registry top is wrong; l.Get(-1) then yields a Go-nil LValue and the
+	// providers' returnValue.Type() dereferences nil.
+	sigNilReturn = "panic-nil-return-value"
 )
 
 // knownOpen lists the confirmed genuine defects of /repo that are recorded as known findings.
@@ -38,7 +42,12 @@ const (
 //	    bound of the subject length, k = number of quantified (* + - ?) single-character items.
 //	slow-tailcall-traceback : LState.stackTrace appends one line per accumulated tail call.
 //	    Input class excluded: tail calls (`return f(...)`) in recursion without a bound.
+//	panic-nil-return-value : xpcall(f, handler) where handler raises an error while handling an
+//	    error of f leaves gopher-lua's registry top wrong; the script's return value is then read
+//	    as Go nil and ingress.go:258 / custom_network_provider.go:291 panic.
+//	    Input class excluded: xpcall with a message handler that raises an error.
 var knownOpen = map[string]bool{
+	sigNilReturn:    true,
 	sigFileLeak:     true,
 	sigLoaders:      true,
 	sigPatternHang:  true,
